@@ -78,6 +78,10 @@ def add_core_items(u, stub=(), verify=False):
         stub = list(cs)
     u.item('core', 'rounding::enum RoundingMode')
     u.raw(R5_DEFAULT, 'R5')
+    # R5 trust anchors: the thread_local read/write and its initial value are exactly these texts
+    u.pin('core', 'rounding::impl Default for RoundingMode::default', sha='45f9d5092fff7a59')
+    u.pin('core', 'rounding::impl RoundingMode::set_default', sha='372a97e79b7e696e')
+    u.pin('core', 'rounding::const DFLT_ROUNDING_MODE', contains='fn __rust_std_internal_init_fn() -> RefCell<RoundingMode> { RefCell::new(RoundingMode::RoundHalfEven) }')
     u.item('core', 'const MAX_N_FRAC_DIGITS')
     u.item('core', 'powers_of_ten::const POWERS_OF_10')
     for k in ['powers_of_ten::ten_pow', 'powers_of_ten::checked_ten_pow', 'powers_of_ten::mul_pow_ten',
